@@ -46,6 +46,16 @@ pub struct Case {
     pub cell: CellSpec,
     pub queries: Vec<Query>,
     pub cfgs: Vec<SimCfg>,
+    /// history: after the executions above, the SAME robot object is re-configured through its
+    /// public fields (new safety table, last environment body removed) and queried again
+    #[serde(default)]
+    pub reconfigure: Option<Reconf>,
+}
+
+#[derive(Clone, Debug, Serialize, Deserialize)]
+pub struct Reconf {
+    pub safety: SafetySpec,
+    pub drop_last_env: bool,
 }
 
 type Sols = Vec<[f64; 6]>;
@@ -174,15 +184,44 @@ enum Want {
 }
 
 pub fn judge(case: &Case) -> Vec<Fail> {
-    let robot = Arc::new(case.cell.build_robot());
-    judge_with(case, &robot, &mut |_, _| {}, &mut |_, _, _| {})
+    let mut robot = Arc::new(case.cell.build_robot());
+    judge_with(case, &mut robot, &mut |_, _| {}, &mut |_, _, _| {})
 }
 
 fn judge_with(
     case: &Case,
+    robot: &mut Arc<KinematicsWithShape>,
+    observe: &mut dyn FnMut(usize, &SimOut<Vec<QObs>>),
+    stats: &mut dyn FnMut(usize, usize, usize),
+) -> Vec<Fail> {
+    let mut fails = judge_phase(case, robot, observe, stats, "");
+    if let Some(rc) = &case.reconfigure {
+        // phase 2: re-configure the same object in place and ask again
+        let mut cell2 = case.cell.clone();
+        cell2.safety = rc.safety.clone();
+        if rc.drop_last_env && !cell2.env.is_empty() {
+            cell2.env.pop();
+            let n = cell2.env.len();
+            cell2.safety.special.retain(|s| (s.0 as usize) < ENV0 + n && (s.1 as usize) < ENV0 + n);
+        }
+        if let Some(r) = Arc::get_mut(robot) {
+            r.body.safety = cell2.safety.build();
+            if rc.drop_last_env && !case.cell.env.is_empty() {
+                r.body.collision_environment.pop();
+            }
+            let case2 = Case { cell: cell2, queries: case.queries.clone(), cfgs: vec![case.cfgs[0].clone()], reconfigure: None };
+            fails.extend(judge_phase(&case2, robot, &mut |_, out| observe(usize::MAX, out), &mut |_, _, _| {}, "/after-reconfiguration"));
+        }
+    }
+    fails
+}
+
+fn judge_phase(
+    case: &Case,
     robot: &Arc<KinematicsWithShape>,
     observe: &mut dyn FnMut(usize, &SimOut<Vec<QObs>>),
     stats: &mut dyn FnMut(usize, usize, usize),
+    phase: &str,
 ) -> Vec<Fail> {
     let oc = OracleCell::new(&case.cell);
     let stack = oc.stack.clone();
@@ -269,8 +308,8 @@ fn judge_with(
                         p += 1;
                         if *want == Want::Drop {
                             fails.push(Fail {
-                                clause: "a:kept-colliding".into(),
-                                signature: format!("C11/{}/kept-colliding", ENTRY[w]),
+                                clause: format!("a:kept-colliding{phase}"),
+                                signature: format!("C11/{}/kept-colliding{phase}", ENTRY[w]),
                                 detail: format!("{} returned solution #{k} of the underlying stack although it collides (query #{qi})", ENTRY[w]),
                                 q: qi,
                                 cfgs: vec![ci],
@@ -278,8 +317,8 @@ fn judge_with(
                         }
                     } else if *want == Want::Keep {
                         fails.push(Fail {
-                            clause: "a:dropped-free".into(),
-                            signature: format!("C11/{}/dropped-free", ENTRY[w]),
+                            clause: format!("a:dropped-free{phase}"),
+                            signature: format!("C11/{}/dropped-free{phase}", ENTRY[w]),
                             detail: format!("{} dropped (or reordered) solution #{k} of the underlying stack although it is collision-free (query #{qi}); underlying has {}, returned {}", ENTRY[w], exp.len(), got.len()),
                             q: qi,
                             cfgs: vec![ci],
@@ -288,8 +327,8 @@ fn judge_with(
                 }
                 if p < got.len() {
                     fails.push(Fail {
-                        clause: "a:not-a-solution".into(),
-                        signature: format!("C11/{}/not-a-solution", ENTRY[w]),
+                        clause: format!("a:not-a-solution{phase}"),
+                        signature: format!("C11/{}/not-a-solution{phase}", ENTRY[w]),
                         detail: format!("{} returned vector #{p} {:?} which is not the next solution of the underlying stack (foreign value, wrong order or duplicate) (query #{qi})", ENTRY[w], got[p]),
                         q: qi,
                         cfgs: vec![ci],
@@ -350,6 +389,11 @@ fn judge_with(
 
 fn simplifications(case: &Case) -> Vec<Case> {
     let mut out = Vec::new();
+    if case.reconfigure.is_some() {
+        let mut c = case.clone();
+        c.reconfigure = None;
+        out.push(c);
+    }
     if case.queries.len() > 1 {
         for i in 0..case.queries.len() {
             let mut c = case.clone();
@@ -509,7 +553,14 @@ pub fn gen_case(seed: u64, shard: u64, run: u64, t: &Tier) -> Case {
         let sched_seed = simctx::mix(&[seed, shard, run, s as u64, simctx::name_hash("c11.sched")]);
         cfgs.push(SimCfg::swarm(&mut knobs, sched_seed, 0, 400_000));
     }
-    Case { cell, queries, cfgs }
+    let reconfigure = if !matches!(ctor, Ctor::New(_)) && knobs.chance(0.5) {
+        let mut t = gen::gen_safety(&mut w, cell.tool.is_some(), cell.base.is_some(), n_env, false, knobs.chance(0.5));
+        t.special.retain(|s| (s.0 as usize) < ENV0 + n_env && (s.1 as usize) < ENV0 + n_env);
+        Some(Reconf { safety: t, drop_last_env: knobs.chance(0.4) })
+    } else {
+        None
+    };
+    Case { cell, queries, cfgs, reconfigure }
 }
 
 pub fn run(tier_name: &str, seed: u64) -> i32 {
@@ -520,15 +571,19 @@ pub fn run(tier_name: &str, seed: u64) -> i32 {
         for run in 0..t.per_shard {
             let case = gen_case(seed, shard as u64, run as u64, &t);
             tally.bump(&format!("ctor_{:?}", case.cell.ctor).to_lowercase().replace(['(', ')'], "_"), 1);
-            let robot = Arc::new(case.cell.build_robot());
+            let mut robot = Arc::new(case.cell.build_robot());
             let scen_hash = simctx::name_hash(&serde_json::to_string(&(&case.cell, &case.queries)).unwrap());
             let mut st: Vec<(String, u64)> = Vec::new();
             let mut sample: Option<Value> = None;
             let fails = judge_with(
                 &case,
-                &robot,
+                &mut robot,
                 &mut |ci, out| {
                     tally.evaluations += 1;
+                    if ci == usize::MAX {
+                        tally.bump("history_requery_after_reconfiguration", 1);
+                        return;
+                    }
                     let c = &out.counters;
                     tally.bump("sched_steps", c.steps);
                     tally.bump("sched_branching_points", c.branching);
